@@ -16,6 +16,11 @@ def gen_pool_case(rng, bias=None, faults=True, max_tasks=12):
             t["start_fail"] = True
         elif faults and rng.random() < 0.05:
             t["log_fail"] = True
+        elif faults and rng.random() < 0.04:
+            t["time_limit"] = rng.choice(["abc", [1], {"a": 1}])  # accepted by the server, breaks the wait: must end FAILED, process gone
+            t["malformed"] = "time_limit"
+        elif rng.random() < 0.03:
+            t["time_limit"] = 0
         tasks.append(t)
     return {
         "max_cores": rng.choice([1, 1, 2, 2, 3, 4]),
